@@ -203,7 +203,9 @@ func (a *Agent) gatherCandidates(ctx context.Context, done chan struct{}) { //no
 			}
 			a.log.Infof("Initialized network monitoring with %d IP addresses", len(addrs))
 		}
-		go a.startNetworkMonitoring(ctx)
+		// Monitor from this goroutine: the cycle is only done when the monitoring, and any
+		// regathering it triggers, has ended, so Close waits for it like for the first pass.
+		a.startNetworkMonitoring(ctx)
 	}
 }
 
